@@ -60,7 +60,7 @@ def _kv(s):
 
 
 def _ws_regex(old):
-    toks = re.findall(r"[A-Za-z_][A-Za-z0-9_]*|\d+|\S", old)
+    toks = re.findall(r"[A-Za-z0-9_]+|\S", old)
     parts = []
     for k, t in enumerate(toks):
         if k:
@@ -143,6 +143,10 @@ class Generator:
                 d = _kv(st[len('//@unit'):])
                 self.unit_props = d.get('props', '').split(',') if d.get('props') else []
                 i += 1
+            elif st.startswith('//@include'):
+                inc = os.path.join(os.path.dirname(os.path.dirname(self.template_path)), st[len('//@include'):].strip())
+                inc_lines = open(inc, encoding='utf-8').read().split('\n')
+                lines[i:i + 1] = inc_lines
             elif st.startswith('//@dropped'):
                 self.dropped.append(st[len('//@dropped'):].strip())
                 i += 1
